@@ -135,6 +135,19 @@ fn note_start<Op: Debug>(worker: usize, i: usize, h: &[Op], op: Option<&Op>, cfg
     }
     *progress().slots[worker % 64].lock().unwrap() = Some((Instant::now(), i, op.map(|o| format!("{:?}", o))));
 }
+/// Scripted systems perform thousands of library calls inside one explorer operation: they call
+/// this every so often, so that the hang watchdog measures the time since the last completed
+/// library call, not the duration of the whole script (a slower but correct implementation is not
+/// a hang). Refreshes every active slot.
+pub fn heartbeat() {
+    for slot in progress().slots.iter() {
+        if let Ok(mut g) = slot.try_lock() {
+            if let Some(e) = g.as_mut() {
+                e.0 = Instant::now();
+            }
+        }
+    }
+}
 fn note_end(worker: usize) {
     *progress().slots[worker % 64].lock().unwrap() = None;
 }
